@@ -337,7 +337,8 @@ def run(ctx):
     else:
         ctx.fn(ST)
         ok, why, n = True, "", 0
-        for p in Walker(ST, max_visits=2).paths():
+        import iters as _it
+        for p in Walker(ST, max_visits=2, inline=S.inline).paths():
             if p.end != "return":
                 continue
             n += 1
@@ -346,12 +347,17 @@ def run(ctx):
                 ok, why = False, "returns %s" % show(r)
                 continue
             h = strip(r[1][0])
-            good = h[0] == "call" and h[1].endswith("::remove") and h[2][1][0] == "const" and h[2][1][3] == 0
             t = strip(r[1][1])
-            # tail = same operator kind over the vector the head was removed from
+            # head = first operand; tail = same operator kind over all the other operands, in order
             kind = [v for c, v, bb in p.decisions if c[0] == "variant" and v in ("And", "Or")]
-            if not good or not (t[0] == "agg" and kind and t[2] == kind[0]):
-                ok, why = False, "split_head_tail returns (%s, %s)" % (show(h), show(t))
+            own = ("field", ("param", 1, ST.locals[1].get("name") or ""), kind[0] + ".0") if kind else None
+            fo = _it.first_of(h)
+            good = fo is not None and own is not None and t[0] == "agg" and t[2] == kind[0] and t[3]
+            if good:
+                ro = _it.rest_of(dict(t[3]).get("0"), p)
+                good = ro is not None and strip(ro) == strip(fo) and strip(fo) == own
+            if not good:
+                ok, why = False, "split_head_tail returns (%s, %s)" % (show(h)[:80], show(t)[:120])
         ctx.ob("R4", "split-removes-first", ok and n == 2, ctx.where(ST), why or "head = operands.remove(0); tail keeps the operator kind")
     # ---- R5 ---------------------------------------------------------------
     def first_search(p, fsn_):
